@@ -2102,11 +2102,12 @@ func scRedeclareAcrossRuns(r *h.Rng) *prog {
 // nested blocks after a value was produced, consumed by a labelled statement, a loop, a for-in
 func scCompletion(r *h.Rng) *prog {
 	p := &prog{}
-	p.v("i", "j", "k", "o", "v")
+	p.v("i", "j", "k", "o", "v", "c1")
 	p.add(m.X(m.Asg("o", m.Obj(m.Prop{K: "a", V: m.Num(1)}))))
 	nv := 0
 	val := func() m.N { nv++; return m.X(m.Num(100 + nv)) }
 	lab := 0
+	var outer []string // labels of the enclosing labelled blocks: a break to one of them may leave loops on its way
 	var list func(d int, brk, cnt string) []m.N
 	stmt := func(d int, brk, cnt string) m.N {
 		c := r.Intn(12)
@@ -2121,6 +2122,13 @@ func scCompletion(r *h.Rng) *prog {
 		case 3:
 			return m.VarS("v", m.Num(5))
 		case 4: // leave through the nearest target, after a value or not
+			if len(outer) > 0 && r.Chance(30) {
+				t := outer[r.Intn(len(outer))]
+				if r.Bool() {
+					return m.Block(val(), m.Break(t))
+				}
+				return m.If(m.Seq(m.Var("c1"), m.Num(1+r.Intn(2))), []m.N{m.Break(t)}, nil)
+			}
 			if brk != "" && r.Bool() {
 				t := brk
 				if brk == cnt && r.Bool() {
@@ -2142,12 +2150,22 @@ func scCompletion(r *h.Rng) *prog {
 		case 7:
 			lab++
 			l := fmt.Sprintf("L%d", lab)
-			return m.Label(l, m.Block(append(list(d-1, l, ""), m.Break(l))...))
+			outer = append(outer, l)
+			inner := list(d-1, l, "")
+			outer = outer[:len(outer)-1]
+			return m.Label(l, m.Block(append(inner, m.Break(l))...))
 		case 8:
 			lab++
 			l := fmt.Sprintf("W%d", lab)
 			ctr := fmt.Sprintf("c%d", lab)
 			p.v(ctr)
+			if len(outer) > 0 && r.Chance(40) {
+				// the second pass leaves for an outer label before it has a value of its own: what the first pass
+				// produced must not travel with the break (12.6.2 "return stmt")
+				t := outer[r.Intn(len(outer))]
+				return m.Block(m.X(m.Asg(ctr, m.Num(0))), m.Label(l, m.While(m.Lt(m.Var(ctr), m.Num(2)),
+					[]m.N{m.If(m.Seq(m.Var(ctr), m.Num(1)), []m.N{m.Break(t)}, nil), inc(ctr, 1), val()})))
+			}
 			body := append([]m.N{inc(ctr, 1)}, list(d-1, l, l)...)
 			return m.Block(m.X(m.Asg(ctr, m.Num(0))), m.Label(l, m.While(m.Lt(m.Var(ctr), m.Num(r.Intn(3))), body)))
 		case 9:
